@@ -91,6 +91,10 @@ def _boundary():
                                                           "e emit id 1 0", "e clear 1", "e reserve %d" % w, "e fini"]))
     # reserve with width 1 until the id space 1..127 is exhausted next to a large id
     out.append(("b:res:exhaust", ["e new fb", "e reserve 1", "e cset 200"] + ["e reserve 1"] * 130 + ["e clear 64", "e reserve 1", "e reserve 1", "e fini"]))
+    # id space of width 1 exhausted in other ways: the maximum id set first, holes cleared and refilled, a second dispatcher start
+    out.append(("b:res:exhaust2", ["e new nofb", "e cset 127"] + ["e reserve 1"] * 128 + ["e clear 127", "e reserve 1", "e reserve 1", "e clear 1", "e clear 50",
+                                                                                       "e reserve 1", "e reserve 1", "e reserve 1", "e fini"]))
+    out.append(("b:res:exhaust3", ["e new builtin", "e set 126", "e set 127", "e set 300"] + ["e reserve 1"] * 127 + ["e drop"] + ["e reserve 1"] * 129 + ["e fini"]))
     # table growth: typed (2 -> 8 -> 13 elements) and raw (8 -> ...), with holes
     for first in ("e set 100", "e reserve 8"):
         lines = ["e new fb", first]
